@@ -1,21 +1,2 @@
-/- GENERATED by translator/gen_moments.py from src/PS/PhaseSpace.cpp (sha256 5e45cec38c897cda).
-   Do not edit: overwritten by every check run. -/
-import InovesaModel.Model.Scalar
-namespace Inovesa.Gen
-open Inovesa
-
-variable {α : Type} [Arith α]
-
-/-- `PhaseSpace::average`: start value, summand and final scale of the first moment of a projection
-    (`proj_i` = projection sample, `qp_i` = its coordinate, `delta` = cell size, `fill` = measured charge `_filling[n]`) -/
-def avgInit : α := (lit (0) 1 0x00000000)
-def avgTerm (proj_i qp_i : α) : α := (proj_i * qp_i)
-def avgScale (delta fill : α) : α := (delta / fill)
-
-/-- `PhaseSpace::variance`: start value, the deviation squared by `std::pow(·,2)` (the summand is
-    `proj_i * pow(varDev, 2)`), and the final scale; `mean` = `_moment[axis][0][n]` just refreshed by `average` -/
-def varInit : α := (lit (0) 1 0x00000000)
-def varDev (qp_i mean : α) : α := (qp_i - mean)
-def varScale (delta fill : α) : α := (delta / fill)
-
-end Inovesa.Gen
+/- GENERATION FAILED (fail-closed): operator call in average: ['_filling_set'] -/
+#eval (translator_failed_for_fragment_Moments : Nat)
